@@ -290,6 +290,72 @@ class HistoryModel:
         ex.debug_on, ex.is_async = self.debug_on, st.is_async
         return ex
 
+    def _eval_with_cache(self, st: InstanceState, info: dict, args: List[Any], selected: Any, memo: dict) -> Any:
+        cache = self.caches[info["from_cache"]]
+        dg = self.spec["dags"][st.dname]
+        subst = {}
+        for idx, val in cache["values"].items():
+            s_ = dg["stmts"][idx]
+            if s_["k"] == "call" and s_["unpack"]:
+                for j, o in enumerate(s_["out"]):
+                    subst[o] = val[j] if val is not None else None
+            else:
+                subst[s_["out"][0]] = val
+        return self.ref.run(st.dname, args, setup_memo=memo, debug_on=self.debug_on, selected=selected, subst=subst)
+
+    def _exrun(self, key: tuple, op: dict) -> None:
+        info = self.execs.get(op["ex"])
+        if info is None or info.get("invalid"):
+            self.expect[key] = Expect("any")
+            return
+        if info["ran"]:
+            ex = Expect("rerun")
+            ex.inst = info["inst"]
+            # C15.c: refuse, or run the complete selection from scratch
+            alt = self._call_expect(key, info["inst"], [lit(a) for a in op["args"]],
+                                    selected={n[1] for n in info["S"] if n[0] == "s"})
+            ex.value, ex.exec_paths, ex.args, ex.status = alt.value, alt.exec_paths, alt.args, alt.status
+            ex.mc, ex.overrides, ex.selected, ex.is_async = alt.mc, alt.overrides, alt.selected, alt.is_async
+            if info.get("from_cache") and info["from_cache"] in self.caches and alt.exec_paths is not None and alt.kind == "value":
+                # "from scratch" for an executor that starts from a cache file includes the cached results
+                st_ = self.inst[info["inst"]]
+                r2 = self._eval_with_cache(st_, info, [lit(a) for a in op["args"]], alt.selected, dict(st_.setup_memo))
+                ex.value = r2.ret
+                ex.exec_paths = {p for p, sname in r2.status.items() if sname in ("exec", "op")}
+                ex.status = {p: ("memo" if sname == "input" else sname) for p, sname in r2.status.items()}
+                ex.args = {p: (a, kw) for p, _, a, kw in r2.calls}
+            self.expect[key] = ex
+            return
+        info["ran"] = True
+        selected = {n[1] for n in info["S"] if n[0] == "s"}
+        st = self.inst[info["inst"]]
+        pre_memo = dict(st.setup_memo)
+        ex = self._call_expect(key, info["inst"], [lit(a) for a in op["args"]], selected=selected)
+        if info.get("from_cache") and info["from_cache"] in self.caches and ex.exec_paths is not None and ex.kind == "value":
+            # cached results count as already computed: re-evaluate with the cached values substituted
+            memo2 = dict(pre_memo)
+            r2 = self._eval_with_cache(st, info, [lit(a) for a in op["args"]], selected, memo2)
+            ex.value = r2.ret
+            ex.exec_paths = {p for p, sname in r2.status.items() if sname in ("exec", "op")}
+            ex.status = {p: ("memo" if sname == "input" else sname) for p, sname in r2.status.items()}
+            ex.args = {p: (a, kw) for p, _, a, kw in r2.calls}
+            st.setup_memo = memo2
+        if info.get("cache_in") and ex.kind == "value":
+            keys = {p[0][1] for p, sname in ex.status.items() if len(p) == 1 and sname in ("exec", "op", "deact", "memo")}
+            if info.get("cache_deps_of") is not None:
+                T = self.resolve(st, info["cache_deps_of"])
+                keys -= {n[1] for n in T if n[0] == "s"}
+            vals = {}
+            for idx in keys:
+                stt = ex.status.get(((st.dname, idx),))
+                vals[idx] = None if stt == "deact" else self._last_values.get(((st.dname, idx),))
+            self.caches[info["cache_in"]] = {"stmts": keys, "values": vals}
+        if ex.kind == "raises":
+            info["failed"] = True
+        info["value"] = ex.value
+        info["status"] = ex.status
+        self.expect[key] = ex
+
     def _op(self, c: int, i: int, op: dict) -> None:
         k = op["op"]
         key = (c, i, 0)
@@ -340,59 +406,7 @@ class HistoryModel:
                 ex.debug_on = self.debug_on
             self.expect[key] = ex
         elif k == "exrun":
-            info = self.execs.get(op["ex"])
-            if info is None or info.get("invalid"):
-                self.expect[key] = Expect("any")
-                return
-            if info["ran"]:
-                ex = Expect("rerun")
-                ex.inst = info["inst"]
-                # C15.c: refuse, or run the complete selection from scratch
-                alt = self._call_expect(key, info["inst"], [lit(a) for a in op["args"]],
-                                        selected={n[1] for n in info["S"] if n[0] == "s"})
-                ex.value, ex.exec_paths, ex.args, ex.status = alt.value, alt.exec_paths, alt.args, alt.status
-                ex.mc, ex.overrides, ex.selected, ex.is_async = alt.mc, alt.overrides, alt.selected, alt.is_async
-                self.expect[key] = ex
-                return
-            info["ran"] = True
-            selected = {n[1] for n in info["S"] if n[0] == "s"}
-            st = self.inst[info["inst"]]
-            pre_memo = dict(st.setup_memo)
-            ex = self._call_expect(key, info["inst"], [lit(a) for a in op["args"]], selected=selected)
-            if info.get("from_cache") and info["from_cache"] in self.caches and ex.exec_paths is not None and ex.kind == "value":
-                # cached results count as already computed: re-evaluate with the cached values substituted
-                cache = self.caches[info["from_cache"]]
-                dg = self.spec["dags"][st.dname]
-                subst = {}
-                for idx, val in cache["values"].items():
-                    s_ = dg["stmts"][idx]
-                    if s_["k"] == "call" and s_["unpack"]:
-                        for j, o in enumerate(s_["out"]):
-                            subst[o] = val[j] if val is not None else None
-                    else:
-                        subst[s_["out"][0]] = val
-                memo2 = dict(pre_memo)
-                r2 = self.ref.run(st.dname, [lit(a) for a in op["args"]], setup_memo=memo2, debug_on=self.debug_on, selected=selected, subst=subst)
-                ex.value = r2.ret
-                ex.exec_paths = {p for p, sname in r2.status.items() if sname in ("exec", "op")}
-                ex.status = {p: ("memo" if sname == "input" else sname) for p, sname in r2.status.items()}
-                ex.args = {p: (a, kw) for p, _, a, kw in r2.calls}
-                st.setup_memo = memo2
-            if info.get("cache_in") and ex.kind == "value":
-                keys = {p[0][1] for p, sname in ex.status.items() if len(p) == 1 and sname in ("exec", "op", "deact", "memo")}
-                if info.get("cache_deps_of") is not None:
-                    T = self.resolve(st, info["cache_deps_of"])
-                    keys -= {n[1] for n in T if n[0] == "s"}
-                vals = {}
-                for idx in keys:
-                    stt = ex.status.get(((st.dname, idx),))
-                    vals[idx] = None if stt == "deact" else self._last_values.get(((st.dname, idx),))
-                self.caches[info["cache_in"]] = {"stmts": keys, "values": vals}
-            if ex.kind == "raises":
-                info["failed"] = True
-            info["value"] = ex.value
-            info["status"] = ex.status
-            self.expect[key] = ex
+            self._exrun(key, op)
         elif k in ("setup", "exsetup"):
             if k == "exsetup":
                 info = self.execs.get(op["ex"])
@@ -518,9 +532,14 @@ class HistoryModel:
             self.inst[op["as"]] = ns
             self.expect[key] = Expect("none")
         elif k == "gather":
-            pre = {cl["inst"]: set(self.inst[cl["inst"]].setup_memo) for cl in op["calls"] if cl["inst"] in self.inst}
+            pre = {cl["inst"]: set(self.inst[cl["inst"]].setup_memo) for cl in op["calls"] if cl.get("inst") in self.inst}
             for j, cl in enumerate(op["calls"]):
                 kk = (c, i, j)
+                if "ex" in cl:
+                    # concurrent awaits of ONE executor object: the first is an ordinary run, every other one is a second run
+                    # (refused, or the complete selection from scratch) - never a result of the partially consumed graph
+                    self._exrun(kk, dict(ex=cl["ex"], args=cl["args"]))
+                    continue
                 ex = self._call_expect(kk, cl["inst"], [lit(a) for a in cl["args"]])
                 if len(op["calls"]) > 1 and ex.status:
                     # concurrent first executions: a setup node recorded by a sibling await of the same gather may or may not
